@@ -1025,13 +1025,24 @@ func (f *frame) localAt(name string, at *ssa.BasicBlock, st State, upto ssa.Inst
 		}
 	}
 	for b := at.Idom(); b != nil && best == nil; b = b.Idom() {
+		var phiCand ssa.Value
 		for _, in := range b.Instrs {
+			// a variable assigned on only some paths is merged by a phi in a
+			// dominating join block: that phi (not the older dominating
+			// definition) is its value from there on
+			if phi, ok := in.(*ssa.Phi); ok && (phi.Comment == name || strings.ReplaceAll(phi.Comment, ".", "_") == name) {
+				phiCand = phi
+			}
 			if dr, ok := in.(*ssa.DebugRef); ok {
 				if id, ok := dr.Expr.(*ast.Ident); ok && id.Name == name {
 					best = dr.X
 					bestIsAddr = dr.IsAddr
 				}
 			}
+		}
+		if best == nil && phiCand != nil {
+			best = phiCand
+			bestIsAddr = false
 		}
 	}
 	if best != nil {
